@@ -23,6 +23,7 @@ From Verif Require Import Intention.Spec.
 From Verif Require Import Intention.OrderProofs.
 From Verif Require Import Intention.Proofs.
 From Verif Require Import Intention.Theorems.
+From Verif Require Import Intention.Mixed.
 Local Open Scope string_scope.
 Local Open Scope list_scope.
 
@@ -200,6 +201,91 @@ Theorem C13_case_folding_order_refuted :
   d_allowed (route1 (fun _ n => cmatch_src (upsert_all [] [cf_w2; cf_w1]) n) dflt "web" dflt "db" false false) = false.
 Proof. exact case_folding_order_refuted. Qed.
 
+(* ---- added after the audit ---- *)
+
+(* The key-injectivity premise of C13_decision_unique / C13_sorted_strict is met by every valid store / table. *)
+Theorem C13_store_keys_distinct : forall st, store_ok st ->
+  forall i j, In i (call st) -> In j (call st) -> key5 i = key5 j -> i = j.
+Proof. exact config_all_key. Qed.
+
+Theorem C13_legacy_keys_distinct : forall t, key4_unique t ->
+  forall i j, In i t -> In j t -> key5 i = key5 j -> i = j.
+Proof. exact legacy_all_key. Qed.
+
+(* "Returned in precedence order" in the property's own terms: in every sorted list of well-formed
+   intentions a more specific intention comes before a less specific one ... *)
+Theorem C13_more_specific_first : forall l i j,
+  isorted l -> (forall x, In x l -> wf x) -> In i l -> In j l -> more_specific i j -> precedes l i j.
+Proof. exact more_specific_first. Qed.
+
+(* ... in particular in Store.Intentions and in both match results, for every valid store / table. *)
+Theorem C13_more_specific_first_config : forall st s d i j,
+  store_ok st -> more_specific i j ->
+  (In i (config_list st) -> In j (config_list st) -> precedes (config_list st) i j) /\
+  (In i (cmatch_src st s) -> In j (cmatch_src st s) -> precedes (cmatch_src st s) i j) /\
+  (In i (cmatch_dst st d) -> In j (cmatch_dst st d) -> precedes (cmatch_dst st d) i j).
+Proof. exact more_specific_first_config. Qed.
+
+Theorem C13_more_specific_first_legacy : forall t mt ns n i j,
+  (forall x, In x t -> wf x) -> more_specific i j ->
+  (In i (legacy_list t) -> In j (legacy_list t) -> precedes (legacy_list t) i j) /\
+  (In i (legacy_match t mt ns n) -> In j (legacy_match t mt ns n) -> precedes (legacy_match t mt ns n) i j).
+Proof. exact more_specific_first_legacy. Qed.
+
+(* Histories that mix whole-entry writes and upserts: any order, any stored order, provided the writes are
+   pairwise independent, the entries upserts go into are shadow free (finding) and names are coherent (finding). *)
+Theorem C13_order_independent_mixed_partial : forall st1 st2 ws1 ws2,
+  store_ok st1 -> store_ok st2 -> Permutation (call st1) (call st2) -> Permutation ws1 ws2 ->
+  cw_independent ws1 -> shadow_free_on ws1 st1 -> shadow_free_on ws1 st2 ->
+  coherent (enames st1 ++ map cw_name ws1) ->
+  let a := capply_all st1 ws1 in
+  let b := capply_all st2 ws2 in
+  config_list a = config_list b /\
+  (forall s, cmatch_src a s = cmatch_src b s) /\
+  (forall d, coherent ((enames st1 ++ map cw_name ws1) ++ [d]) -> cmatch_dst a d = cmatch_dst b d) /\
+  (forall peer s d da ap, coherent ((enames st1 ++ map cw_name ws1) ++ [d]) ->
+     route1 (fun _ n => cmatch_src a n) dflt s dflt d da ap = route1 (fun _ n => cmatch_src b n) dflt s dflt d da ap /\
+     route2 (fun _ n => cmatch_dst a n) peer dflt s dflt d da ap = route2 (fun _ n => cmatch_dst b n) peer dflt s dflt d da ap).
+Proof. exact order_independent_mixed. Qed.
+
+(* Destination-kind services (a service-defaults entry with a Destination block, names [dk]): the Check route
+   decides by the most specific covering intention among those whose destination is NOT such a name ... *)
+Theorem C13_check_route_dest_kind : forall dk st s d,
+  store_ok st ->
+  decided (call (filter (visible dk false) st)) "" dflt s dflt d
+          (find (authz_match MDst d dflt "") (cmatch_src_k dk false st s)).
+Proof. exact route1_dest_kind. Qed.
+
+(* ... so the two routes agree when no stored destination is destination-kind ... *)
+Theorem C13_paths_agree_dest_kind_partial : forall dk st s d default_allow allow_perms,
+  store_ok st -> coherent (enames st ++ [d]) ->
+  (forall e, In e st -> is_dest_kind dk (e_name e) = false) ->
+  route1 (fun _ n => cmatch_src_k dk false st n) dflt s dflt d default_allow allow_perms
+  = route2 (fun _ n => cmatch_dst st n) "" dflt s dflt d default_allow allow_perms.
+Proof. exact paths_agree_kinds. Qed.
+
+(* ... and disagree otherwise: web -> db deny, web -> * allow, db destination-kind: Check allows. *)
+Theorem C13_dest_kind_refuted :
+  store_ok dkx_store /\ coherent (enames dkx_store ++ ["db"]) /\
+  d_allowed (route1 (fun _ n => cmatch_src_k ["db"] false dkx_store n) dflt "web" dflt "db" false false) = true /\
+  d_allowed (route2 (fun _ n => cmatch_dst dkx_store n) "" dflt "web" dflt "db" false false) = false.
+Proof. exact dest_kind_refuted. Qed.
+
+(* The premises of the order theorems are met by non-empty write lists and their (different) reversals. *)
+Example C13_order_hypotheses_satisfiable :
+  (store_ok [] /\ shadow_free [] /\ Permutation ox_upserts (rev ox_upserts) /\ ox_upserts <> rev ox_upserts /\
+   NoDup (map wkey ox_upserts) /\ (forall w, In w ox_upserts -> s_peer (snd w) = "") /\
+   coherent (enames [] ++ map fst ox_upserts)) /\
+  (Permutation ox_entries (rev ox_entries) /\ ox_entries <> rev ox_entries /\ NoDup (map lname ox_entries)) /\
+  (fresh_writes [] ex_writes /\ Permutation ex_writes (rev ex_writes) /\ ex_writes <> rev ex_writes).
+Proof. exact order_examples. Qed.
+
+Example C13_mixed_hypotheses_satisfiable :
+  cw_independent mx_writes /\ shadow_free_on mx_writes [] /\ coherent (enames [] ++ map cw_name mx_writes) /\
+  Permutation mx_writes (rev mx_writes) /\
+  List.length (call (capply_all [] mx_writes)) = 5%nat.
+Proof. exact mx_example. Qed.
+
 (* Non-vacuity: concrete stores meet every hypothesis used above, with non-trivial decisions
    (exact allow; wildcard deny over default allow; wildcard-destination deny; L7; default). *)
 Example C13_hypotheses_satisfiable_config :
@@ -240,3 +326,14 @@ Print Assumptions C13_stored_order_refuted.
 Print Assumptions C13_case_folding_order_refuted.
 Print Assumptions C13_hypotheses_satisfiable_config.
 Print Assumptions C13_hypotheses_satisfiable_legacy.
+Print Assumptions C13_store_keys_distinct.
+Print Assumptions C13_legacy_keys_distinct.
+Print Assumptions C13_more_specific_first.
+Print Assumptions C13_more_specific_first_config.
+Print Assumptions C13_more_specific_first_legacy.
+Print Assumptions C13_order_independent_mixed_partial.
+Print Assumptions C13_check_route_dest_kind.
+Print Assumptions C13_paths_agree_dest_kind_partial.
+Print Assumptions C13_dest_kind_refuted.
+Print Assumptions C13_order_hypotheses_satisfiable.
+Print Assumptions C13_mixed_hypotheses_satisfiable.
